@@ -303,6 +303,29 @@ func mutate(in *parseIn, q string) (string, bool) {
 			return strings.Replace(q, "}", "zz=~\"[\"}", 1), true
 		}
 		return strings.Replace(q, "}", ", zz=~\"[\"}", 1), true
+	case "upper_stage":
+		// a stage keyword in upper case is an identifier: `| JSON` begins a label filter that never ends
+		if in.Kind != "log" {
+			return q, false
+		}
+		for _, kw := range []string{"| json", "| logfmt", "| unpack", "| decolorize", "| drop ", "| keep ", "| distinct ", "| pattern ", "| regexp ", "| line_format ", "| label_format "} {
+			if at := outsideStrings(q, kw); len(at) > 0 {
+				// (`| JSON != "x"` would be a label filter on a label named JSON: a valid text)
+				rest := strings.TrimLeft(q[at[0]+len(kw):], " \t\r\n")
+				for strings.HasPrefix(rest, "#") { // a comment runs to the end of its line
+					if nl := strings.IndexByte(rest, '\n'); nl >= 0 {
+						rest = strings.TrimLeft(rest[nl+1:], " \t\r\n")
+					} else {
+						rest = ""
+					}
+				}
+				if strings.HasPrefix(rest, "!=") || strings.HasPrefix(rest, "!~") {
+					continue
+				}
+				return q[:at[0]] + strings.ToUpper(kw) + q[at[0]+len(kw):], true
+			}
+		}
+		return q, false
 	case "unwrap_in_log":
 		if in.Kind != "log" {
 			return q, false
@@ -331,12 +354,19 @@ func mutate(in *parseIn, q string) (string, bool) {
 	case "empty_selector_matcher":
 		return strings.Replace(q, "{", "{,", 1), strings.Contains(q, "{")
 	case "quantile_no_param", "param_not_allowed", "topk_no_param", "topk_zero", "sort_grouping", "range_grouping", "unwrap_missing", "unwrap_forbidden", "missing_range",
-		"lrepl_bad_regex", "lrepl_three_args", "lrepl_bare_arg", "on_without_labels", "group_without_on":
+		"lrepl_bad_regex", "lrepl_three_args", "lrepl_bare_arg", "on_without_labels", "group_without_on", "upper_keyword":
 		if in.Kind != "metric" {
 			return q, false
 		}
 		base := "{a=\"b\"}"
 		switch in.Mut {
+		case "upper_keyword":
+			for _, kw := range []string{" by ", " without ", " unwrap ", " offset ", " bool ", " on ", " ignoring "} {
+				if at := outsideStrings(q, kw); len(at) > 0 {
+					return q[:at[0]] + strings.ToUpper(kw) + q[at[0]+len(kw):], true
+				}
+			}
+			return q, false
 		case "lrepl_bad_regex":
 			return "label_replace(" + q + ", \"d\", \"$1\", \"s\", \"(\")", true
 		case "lrepl_three_args":
@@ -625,7 +655,7 @@ func wireExpr(e logql.Expr) F {
 var parseMuts = []string{"drop_close_brace", "drop_close_paren", "drop_close_bracket", "double_pipe", "trailing_op", "trailing_junk", "unterminated_string",
 	"bad_regex", "bad_label_regex", "unwrap_in_log", "dup_label_format", "dup_label_format_mixed", "dup_label_format_mixed2", "dup_label_format_tmpl", "empty_selector_matcher", "quantile_no_param", "param_not_allowed", "topk_no_param",
 	"topk_zero", "sort_grouping", "range_grouping", "unwrap_missing", "unwrap_forbidden", "missing_range",
-	"lrepl_bad_regex", "lrepl_three_args", "lrepl_bare_arg", "on_without_labels", "group_without_on"}
+	"lrepl_bad_regex", "lrepl_three_args", "lrepl_bare_arg", "on_without_labels", "group_without_on", "upper_keyword", "upper_stage"}
 
 func (famParse) Gen(r *rand.Rand, n int, _ map[string]string) []any {
 	out := make([]any, 0, n)
@@ -659,6 +689,23 @@ func (famParse) Gen(r *rand.Rand, n int, _ map[string]string) []any {
 			in.Kind = "metric"
 			_, e, _ := genBinOpCase(r)
 			in.Expr = &e
+		}
+		if r.Intn(4) == 0 {
+			// label names that read like keywords or function names but for their case: identifiers, not keywords
+			kw := []string{"Offset", "JSON", "By", "ON", "Keep", "Pattern", "Drop", "Bool", "IP", "Unwrap", "Logfmt", "Without", "Duration", "Bytes", "Sum", "Rate", "Topk",
+				"Vector", "AND", "Or", "Unless", "Ignoring", "Group_left", "Label_format", "Line_format", "Decolorize", "Distinct", "Count_over_time", "Regexp", "Unpack", "oR", "bY"}
+			m := map[string]string{}
+			ren := func(x []int) []int {
+				k := S(x)
+				if _, ok := m[k]; !ok {
+					m[k] = k
+					if r.Intn(2) == 0 {
+						m[k] = pick(r, kw)
+					}
+				}
+				return B(m[k])
+			}
+			renameIdentLabels(&in, ren)
 		}
 		if in.Kind == "metric" {
 			decorateParseExpr(r, in.Expr, 0)
@@ -738,4 +785,66 @@ func genLabelReplace(r *rand.Rand, inner *mexprIn) *mexprIn {
 		Repl:  B(pick(r, []string{"$1", "${1}-x", "fixed", "", "$2:$1", "a\"b"})),
 		Src:   B(pick(r, []string{"app", "src", "zone", ""})),
 		Regex: B(pick(r, []string{"(.*)", "a(b|c)", "(.+)-(.+)", "", "x", "^y$", "(?i)z"}))}
+}
+
+// renameIdentLabels applies ren to the label names that the grammar reads as identifiers: selector and drop / keep matchers,
+// label predicates, parser label lists, distinct, grouping, unwrap (label_format targets stay: two must not collide).
+func renameIdentLabels(in *parseIn, ren func([]int) []int) {
+	var pred func(p *predIn)
+	pred = func(p *predIn) {
+		if p == nil {
+			return
+		}
+		if p.A != nil || p.B != nil {
+			pred(p.A)
+			pred(p.B)
+			return
+		}
+		p.Label = ren(p.Label)
+	}
+	ms := func(m []matcherIn) {
+		for i := range m {
+			m[i].Label = ren(m[i].Label)
+		}
+	}
+	stages := func(st []stageIn) {
+		for i := range st {
+			switch st[i].T {
+			case "label":
+				pred(st[i].Pred)
+			case "drop", "keep", "distinct":
+				for k := range st[i].Labels {
+					st[i].Labels[k] = ren(st[i].Labels[k])
+				}
+				if len(st[i].Label) > 0 {
+					st[i].Label = ren(st[i].Label)
+				}
+				ms(st[i].Matchers)
+			}
+		}
+	}
+	ms(in.Sel)
+	stages(in.Stages)
+	var ex func(e *mexprIn)
+	ex = func(e *mexprIn) {
+		if e == nil {
+			return
+		}
+		switch e.T {
+		case "range":
+			ms(e.Sel)
+			stages(e.Stages)
+			if e.Unwrap.On {
+				e.Unwrap.Label = ren(e.Unwrap.Label)
+				ms(e.Unwrap.Filters)
+			}
+		}
+		for k := range e.Grp.Labels {
+			e.Grp.Labels[k] = ren(e.Grp.Labels[k])
+		}
+		ex(e.E)
+		ex(e.A)
+		ex(e.B)
+	}
+	ex(in.Expr)
 }
